@@ -81,6 +81,7 @@ type blockDesc struct {
 	Pos   int               `json:"pos"`
 	Begin []int             `json:"begin"`
 	BeginHex string         `json:"beginhex"`
+	BeginOff int            `json:"beginoff"` // begin - code base (-1 if outside 0..2^20)
 	Ins   []zzverifui.LineTok `json:"ins"`
 }
 
@@ -114,6 +115,9 @@ type uiEvent struct {
 	SameChars bool              `json:"samechars"`
 	WLens   []int               `json:"wlens"`
 	Hang    bool                `json:"hang"`
+	Shown   []int               `json:"shown"`  // render: indices of the lines printed
+	HasIP   bool                `json:"hasip"`  // emulate mode: the emulated instruction pointer is known
+	IPOff   int                 `json:"ipoff"`  // ... as offset from the code base (-1: outside 0..2^20)
 }
 
 // fmtLine is one wrapped line measured: leading tabs, length of the rest, lengths of its space separated pieces
@@ -143,6 +147,13 @@ func (u *uiSession) describe(ev *uiEvent) {
 	s := u.s
 	ev.Depth = s.UI.VerifDepth()
 	_, ev.Mode = s.UI.VerifMode()
+	if ip, ok := s.EmuIP(); ok {
+		ev.HasIP = true
+		ev.IPOff = -1
+		if d := ip - u.base; d < 1<<20 {
+			ev.IPOff = int(d)
+		}
+	}
 	ev.Listing, ev.Cursor, ev.HasList = s.Listing()
 	if ev.Listing == nil {
 		ev.Listing = []zzverifui.LineTok{}
@@ -158,7 +169,10 @@ func (u *uiSession) describe(ev *uiEvent) {
 	}
 	ev.Fresh = s.Fresh()
 	for pos, b := range s.Code.Blocks() {
-		bd := blockDesc{Pos: pos, Begin: le(uint64(b.Begin()), 8), BeginHex: hexAddr(uint64(b.Begin())), Ins: []zzverifui.LineTok{}}
+		bd := blockDesc{Pos: pos, Begin: le(uint64(b.Begin()), 8), BeginHex: hexAddr(uint64(b.Begin())), BeginOff: -1, Ins: []zzverifui.LineTok{}}
+		if d := uint64(b.Begin()) - u.base; d < 1<<20 {
+			bd.BeginOff = int(d)
+		}
 		for _, in := range b.Instructions() {
 			bs := []string{}
 			for _, x := range in.Bytes() {
@@ -228,7 +242,7 @@ func init() {
 		for _, w := range c.Text {
 			wl = append(wl, len(w))
 		}
-		ev := uiEvent{WLens: wl, FmtLines: []fmtLine{}, Hits: []int{}, uiCase: c, Listing: []zzverifui.LineTok{}, Fresh: []zzverifui.LineTok{}, Proj: []blockDesc{}, EntryAt: []int{},
+		ev := uiEvent{Shown: []int{}, WLens: wl, FmtLines: []fmtLine{}, Hits: []int{}, uiCase: c, Listing: []zzverifui.LineTok{}, Fresh: []zzverifui.LineTok{}, Proj: []blockDesc{}, EntryAt: []int{},
 			MemRows: []zzverifui.MemRow{}, Val: []int{}, OutL: []string{}}
 		switch c.Op {
 		case "uinew":
@@ -368,6 +382,7 @@ func init() {
 			}
 			r := u.s.Render(c.N)
 			ev.Min, ev.Max, ev.Lines, ev.Panic, ev.Err = r.Min, r.Max, r.Lines, r.Panic, r.Err
+			ev.Shown = r.Shown
 			_, ev.Mode = u.s.UI.VerifMode()
 		case "parts":
 			ev.Panic = guard(func() {
